@@ -23,6 +23,7 @@ import XdslModel.Loops
 import XdslModel.DCE
 import XdslModel.EGraph
 import XdslModel.RiscVRules
+import XdslModel.ArithFloatLogic
 /-!
 Model registry for the driver: `MODEL <name>` selects a `(state, lineStep)` pair.
 A continuation-passing encoding is used because the state types differ.
@@ -58,6 +59,7 @@ def run? (name : String) : Option Runner :=
   | "dce" => some fun k => k DCE.lineStep ()
   | "egraph" => some fun k => k EGraph.lineStep ()
   | "riscv" => some fun k => k RiscV.rulesLineStep ()
+  | "arith_float_logic" => some fun k => k ArithFloatLogic.lineStep ()
   | _ => none
 
 end Xdsl.Registry
